@@ -626,7 +626,8 @@ pub fn explore(ctx: &mut Ctx, mk: fn() -> Box<dyn DynIter>) {
         passes.push((2usize, n_values(n)));
     } else if n > 12 {
         // SCALE programs: one live iterator in the quick tier; clone independence with a tiny alphabet in thorough
-        if ctx.thorough() {
+        // (two live iterators square the state space: (N+1)(N+2)/2 cursor pairs each — kept to N <= 40: 561^2 states; N = 65 alone took 45 min)
+        if ctx.thorough() && n <= 40 {
             passes.push((2usize, vec![0, n - 1, usize::MAX]));
         }
     } else {
